@@ -147,7 +147,7 @@ CHECKS["C06"] = {
              "After each RPC the transport is flushed; an application-level stall is ended by Close from another goroutine. Oracle: if the connection has not reported itself closed and every client call and handler "
              "has returned, a probe unary RPC reaches its handler and returns its own echo, decided at quiescence in flush mode. Non-trivial: the probe ran and some earlier RPC ended with bytes in flight, "
              "an early close, a soft cancel, a handler error or a forced close. Distinct by action trace + programs."),
-    "assumptions": E3_ASSUME + ["known findings F5 and F6 are excluded by construction (see known_findings.jsonl); their minimal scenarios are replayed on every run"],
+    "assumptions": E3_ASSUME + ["known finding F5 is excluded by construction (see known_findings.jsonl); their minimal scenarios are replayed on every run"],
     "subs": [
         {"test": "TestC06Probe", "prop": "C06/probe", "quick": 16000, "thorough": 400000, "shards_quick": 16, "shards_thorough": 16, "gomaxprocs": 1},
     ],
